@@ -375,6 +375,17 @@ func workload(r *mon.Run, idx int, f func(*call)) error {
 			return fmt.Errorf("beaconing(droppeer): %w", err)
 		}
 		variants = append(variants, variant{"droppeer", dropped, true, false, false})
+		// the same hop sequences registered twice with different sets of peer
+		// entries (full announcement and one-sided/partial announcement)
+		merged := &simbeacon.Segments{Up: map[addr.IA][]*seg.PathSegment{}}
+		for _, ia := range topo.IAs() {
+			u := append(append([]*seg.PathSegment{}, clean.Up[ia]...), dropped.Up[ia]...)
+			if len(u) > 0 {
+				merged.Up[ia] = shuffleSegs(rng, u)
+			}
+		}
+		merged.Core = shuffleSegs(rng, append(append([]*seg.PathSegment{}, clean.Core...), dropped.Core...))
+		variants = append(variants, variant{"mergepeer", merged, true, false, false})
 		variants = append(variants, variant{"allsegs", clean, true, true, false})
 		// incomplete lookups: random subsets, whole categories missing
 		variants = append(variants, variant{"sparse", clean, true, false, true})
